@@ -263,143 +263,6 @@ static void check_rules(const mjModel* m, char* out, size_t outsz) {
 
 static void on_alarm(int s) { (void)s; const char* t = " timeout"; wr(fatal_fd, t); _exit(0); }
 
-// runs in the child: result text goes to fd
-static void child_load(const unsigned char* buf, int n, int fd, int with_oracle) {
-  char t[1600];
-  in_child = 1; fatal_fd = fd; stage = "load"; lastwarn[0] = 0;
-  alloc_seq = 0; alloc_second = 0;
-  signal(SIGALRM, on_alarm);
-  alarm(20);
-  // exact-size private copy so that a sanitizer sees reads past the end
-  unsigned char* priv = (unsigned char*)malloc(n > 0 ? (size_t)n : 1);
-  if (n > 0) memcpy(priv, buf, (size_t)n);
-  alloc_seq = 0;
-  mjModel* m = mj_loadModelBuffer(priv, n);
-  char nb[48];
-  if (alloc_seq >= 2) snprintf(nb, sizeof nb, " nbuf=%zu", alloc_second); else snprintf(nb, sizeof nb, " nbuf=-");
-  if (!m) {
-    snprintf(t, sizeof t, "reject %s%s", lastwarn[0] ? lastwarn : "<no warning>", nb);
-    wr(fd, t);
-    free(priv);
-#if HAVE_LSAN
-    stage = "leakcheck";
-    if (__lsan_do_recoverable_leak_check()) wr(fd, " ; leak=1");
-#endif
-    return;
-  }
-  stage = "resave";
-  mjtSize sz = mj_sizeModel(m);
-  if (sz < 0 || sz > ((mjtSize)1 << 30)) { snprintf(t, sizeof t, "ok len=%lld fnv=-%s", (long long)sz, nb); wr(fd, t); }
-  else {
-    unsigned char* out = (unsigned char*)malloc(sz > 0 ? (size_t)sz : 1);
-    mj_saveModel(m, NULL, out, (int)sz);
-    snprintf(t, sizeof t, "ok len=%lld fnv=%016llx%s", (long long)sz, (unsigned long long)fnv(out, (size_t)sz), nb);
-    wr(fd, t);
-    free(out);
-  }
-  if (with_oracle) {
-    wr(fd, " ;");
-    stage = "check";
-    char o[512];
-    check_rules(m, o, sizeof o);
-    snprintf(t, sizeof t, " oob=%s", o); wr(fd, t);
-    stage = "makedata";
-    mjData* d = mj_makeData(m);
-    if (!d) { wr(fd, " makedata=null"); }
-    else {
-      wr(fd, " makedata=ok");
-      stage = "forward";
-      mj_forward(m, d);
-      mj_step(m, d);
-      wr(fd, " forward=ok");
-      mj_deleteData(d);
-    }
-  }
-  mj_deleteModel(m);
-  free(priv);
-#if HAVE_LSAN
-  stage = "leakcheck";
-  if (__lsan_do_recoverable_leak_check()) wr(fd, with_oracle ? " leak=1" : " ; leak=1");
-#endif
-}
-
-// fork, run f in the child, collect text; append crash information
-static void forked_load(const unsigned char* buf, int n, Str* out, int with_oracle) {
-  int pf[2], ef[2];
-  if (pipe(pf) || pipe(ef)) { s_str(out, "infra pipe"); return; }
-  fflush(stdout);
-  pid_t pid = fork();
-  if (pid == 0) {
-    close(pf[0]); close(ef[0]);
-    dup2(ef[1], 2);
-    child_load(buf, n, pf[1], with_oracle);
-    // tell the parent which stage we reached in case of a later crash: not needed, exit now
-    _exit(0);
-  }
-  close(pf[1]); close(ef[1]);
-  char tmp[4096];
-  ssize_t k;
-  size_t start = out->n;
-  while ((k = read(pf[0], tmp, sizeof tmp)) > 0) s_put(out, tmp, (size_t)k);
-  Str err = {0};
-  while ((k = read(ef[0], tmp, sizeof tmp)) > 0) { if (err.n < 65536) s_put(&err, tmp, (size_t)k); }
-  close(pf[0]); close(ef[0]);
-  if (out->s) for (size_t i = start; i < out->n; i++) if (out->s[i] == '\n' || out->s[i] == '\r') out->s[i] = ' ';
-  int st = 0;
-  waitpid(pid, &st, 0);
-  int crashed = (WIFSIGNALED(st)) || (WIFEXITED(st) && WEXITSTATUS(st) != 0);
-  if (crashed) {
-    // which stage: deduce from what was already written
-    const char* sofar = out->s ? out->s + start : "";
-    const char* stg = "load";
-    if (strstr(sofar, "forward=ok")) stg = "teardown";
-    else if (strstr(sofar, "makedata=ok")) stg = "forward";
-    else if (strstr(sofar, "oob=")) stg = "makedata";
-    else if (strstr(sofar, " ;")) stg = "check";
-    else if (!strncmp(sofar, "ok", 2)) stg = "teardown";
-    else if (!strncmp(sofar, "reject", 6)) stg = "teardown";
-    char t[128];
-    if (WIFSIGNALED(st)) snprintf(t, sizeof t, "%scrash sig=%d stage=%s", out->n > start ? " " : "", WTERMSIG(st), stg);
-    else snprintf(t, sizeof t, "%scrash exit=%d stage=%s", out->n > start ? " " : "", WEXITSTATUS(st), stg);
-    s_str(out, t);
-    if (err.s) {
-      // first sanitizer line
-      const char* p = strstr(err.s, "ERROR: ");
-      if (!p) p = strstr(err.s, "runtime error:");
-      if (p) {
-        char line[400]; size_t j = 0;
-        while (p[j] && p[j] != '\n' && j < sizeof line - 1) { line[j] = p[j] == ' ' ? '_' : p[j]; j++; }
-        line[j] = 0;
-        s_str(out, " san="); s_str(out, line);
-        // innermost frames inside the engine
-        const char* f = err.s; int nf = 0;
-        while ((f = strstr(f, " in ")) && nf < 4) {
-          f += 4; size_t q = 0; char fn[120];
-          while (f[q] && f[q] != ' ' && f[q] != '\n' && q < sizeof fn - 1) { fn[q] = f[q]; q++; }
-          fn[q] = 0;
-          s_str(out, nf ? "<" : " at="); s_str(out, fn); nf++;
-        }
-      }
-    }
-  } else if (err.s && (strstr(err.s, "LeakSanitizer") != NULL) && !strstr(out->s + start, "leak=1")) {
-    s_str(out, " ; leak=1");
-  }
-  if (err.s && strstr(out->s + start, "leak=1")) {
-    // name the allocation site of the leak
-    const char* f = strstr(err.s, "Direct leak");
-    if (f) {
-      int nf = 0;
-      while ((f = strstr(f, " in ")) && nf < 5) {
-        f += 4; size_t q = 0; char fn[120];
-        while (f[q] && f[q] != ' ' && f[q] != '\n' && q < sizeof fn - 1) { fn[q] = f[q]; q++; }
-        fn[q] = 0;
-        s_str(out, nf ? "<" : " leakat="); s_str(out, fn); nf++;
-      }
-    }
-  }
-  free(err.s);
-}
-
 static int hexval(int c) { if (c >= '0' && c <= '9') return c - '0'; if (c >= 'a' && c <= 'f') return c - 'a' + 10; return -1; }
 
 // apply edits; returns new buffer (malloc) and length, or NULL on a malformed edit
@@ -462,7 +325,232 @@ bad:
   return NULL;
 }
 
+// runs in a worker: result text goes to fd (the caller terminates the line); returns 1 when the worker
+// should retire (a leak was reported: later reports would repeat it)
+static int child_load(const unsigned char* buf, int n, int fd, int with_oracle) {
+  char t[1600];
+  int retire = 0;
+  stage = "load"; lastwarn[0] = 0;
+  alloc_seq = 0; alloc_second = 0;
+  alarm(20);
+  // exact-size private copy so that a sanitizer sees reads past the end
+  unsigned char* priv = (unsigned char*)malloc(n > 0 ? (size_t)n : 1);
+  if (n > 0) memcpy(priv, buf, (size_t)n);
+  alloc_seq = 0;
+  mjModel* m = mj_loadModelBuffer(priv, n);
+  char nb[48];
+  if (alloc_seq >= 2) snprintf(nb, sizeof nb, " nbuf=%zu", alloc_second); else snprintf(nb, sizeof nb, " nbuf=-");
+  if (!m) {
+    snprintf(t, sizeof t, "reject %s%s", lastwarn[0] ? lastwarn : "<no warning>", nb);
+    wr(fd, t);
+    free(priv);
+#if HAVE_LSAN
+    stage = "leakcheck";
+    if (__lsan_do_recoverable_leak_check()) { wr(fd, " ; leak=1"); retire = 1; }
+#endif
+    alarm(0);
+    return retire;
+  }
+  stage = "resave";
+  mjtSize sz = mj_sizeModel(m);
+  if (sz < 0 || sz > ((mjtSize)1 << 30)) { snprintf(t, sizeof t, "ok len=%lld fnv=-%s", (long long)sz, nb); wr(fd, t); }
+  else {
+    unsigned char* out = (unsigned char*)malloc(sz > 0 ? (size_t)sz : 1);
+    mj_saveModel(m, NULL, out, (int)sz);
+    snprintf(t, sizeof t, "ok len=%lld fnv=%016llx%s", (long long)sz, (unsigned long long)fnv(out, (size_t)sz), nb);
+    wr(fd, t);
+    free(out);
+  }
+  if (with_oracle) {
+    wr(fd, " ;");
+    stage = "check";
+    char o[512];
+    check_rules(m, o, sizeof o);
+    snprintf(t, sizeof t, " oob=%s", o); wr(fd, t);
+    stage = "makedata";
+    mjData* d = mj_makeData(m);
+    if (!d) { wr(fd, " makedata=null"); }
+    else {
+      wr(fd, " makedata=ok");
+      stage = "forward";
+      mj_forward(m, d);
+      mj_step(m, d);
+      wr(fd, " forward=ok");
+      mj_deleteData(d);
+    }
+  }
+  stage = "teardown";
+  mj_deleteModel(m);
+  free(priv);
+#if HAVE_LSAN
+  stage = "leakcheck";
+  if (__lsan_do_recoverable_leak_check()) { wr(fd, with_oracle ? " leak=1" : " ; leak=1"); retire = 1; }
+#endif
+  alarm(0);
+  return retire;
+}
+
+// ------------------------------------------------------------------ worker processes
+// Loads run in a forked worker so that a crash / sanitizer abort / mju_error cannot take the driver
+// down.  fork() is expensive on the verification machines, so one worker serves up to WORKER_OPS
+// consecutive loads of the same model; it retires early after anything that could contaminate later
+// loads (mju_error, timeout, canary hit, leak report).  When a worker dies during an op that was not
+// its first, the op is re-run alone in a fresh worker so that the crash is attributed to the right input.
+#define WORKER_OPS 64
+typedef struct { pid_t pid; int to, from, err; int nops; } Worker;
+static Worker W = {0, -1, -1, -1, 0};
+
+static void worker_main(int rfd, int wfd) {
+  in_child = 1; fatal_fd = wfd;
+  signal(SIGALRM, on_alarm);
+  FILE* in = fdopen(rfd, "r");
+  char* line = NULL; size_t cap = 0; ssize_t ln;
+  while ((ln = getline(&line, &cap, in)) > 0) {
+    while (ln > 0 && (line[ln - 1] == '\n' || line[ln - 1] == '\r')) line[--ln] = 0;
+    int orc = line[0] == '1';
+    int n = 0;
+    unsigned char* b = apply_edits(ln >= 2 ? line + 2 : line + ln, &n);
+    if (!b) { wr(wfd, "bad-op\n"); continue; }
+    int retire = child_load(b, n, wfd, orc);
+    free(b);
+    wr(wfd, "\n");
+    if (retire) _exit(0);
+  }
+  _exit(0);
+}
+
+static void worker_reap(Str* err, int* status) {
+  if (W.pid <= 0) return;
+  if (W.to >= 0) { close(W.to); W.to = -1; }
+  char tmp[4096]; ssize_t k;
+  if (W.err >= 0) {
+    while ((k = read(W.err, tmp, sizeof tmp)) > 0) { if (err && err->n < 65536) s_put(err, tmp, (size_t)k); }
+    close(W.err); W.err = -1;
+  }
+  if (W.from >= 0) { close(W.from); W.from = -1; }
+  int st = 0;
+  waitpid(W.pid, &st, 0);
+  if (status) *status = st;
+  W.pid = 0; W.nops = 0;
+}
+
+static int worker_spawn(void) {
+  int a[2], b[2], e[2];
+  if (pipe(a) || pipe(b) || pipe(e)) return 0;
+  fflush(stdout);
+  pid_t pid = fork();
+  if (pid < 0) return 0;
+  if (pid == 0) {
+    close(a[1]); close(b[0]); close(e[0]);
+    dup2(e[1], 2);
+    worker_main(a[0], b[1]);
+    _exit(0);
+  }
+  close(a[0]); close(b[1]); close(e[1]);
+  W.pid = pid; W.to = a[1]; W.from = b[0]; W.err = e[0]; W.nops = 0;
+  return 1;
+}
+
+static void describe_crash(const char* sofar, int st, const Str* err, Str* out, int had_text) {
+  const char* stg = "load";
+  if (strstr(sofar, "forward=ok")) stg = "teardown";
+  else if (strstr(sofar, "makedata=ok")) stg = "forward";
+  else if (strstr(sofar, "oob=")) stg = "makedata";
+  else if (strstr(sofar, " ;")) stg = "check";
+  else if (!strncmp(sofar, "ok", 2)) stg = "teardown";
+  else if (!strncmp(sofar, "reject", 6)) stg = "teardown";
+  char t[128];
+  if (WIFSIGNALED(st)) snprintf(t, sizeof t, "%scrash sig=%d stage=%s", had_text ? " " : "", WTERMSIG(st), stg);
+  else snprintf(t, sizeof t, "%scrash exit=%d stage=%s", had_text ? " " : "", WEXITSTATUS(st), stg);
+  s_str(out, t);
+  if (err->s) {
+    const char* p = strstr(err->s, "ERROR: ");
+    if (!p) p = strstr(err->s, "runtime error:");
+    if (p) {
+      char line[400]; size_t j = 0;
+      while (p[j] && p[j] != '\n' && j < sizeof line - 1) { line[j] = p[j] == ' ' ? '_' : p[j]; j++; }
+      line[j] = 0;
+      s_str(out, " san="); s_str(out, line);
+      const char* f = p; int nf = 0;
+      while ((f = strstr(f, " in ")) && nf < 4) {
+        f += 4; size_t q = 0; char fn[120];
+        while (f[q] && f[q] != ' ' && f[q] != '\n' && q < sizeof fn - 1) { fn[q] = f[q]; q++; }
+        fn[q] = 0;
+        s_str(out, nf ? "<" : " at="); s_str(out, fn); nf++;
+      }
+    }
+  }
+}
+
+// run one load (edit spec) in a worker; appends the result text to out
+static void worker_load(const char* spec, int with_oracle, Str* out) {
+  for (int attempt = 0, respawns = 0; attempt < 2;) {
+    if (W.pid > 0) {
+      int st;
+      if (W.nops >= WORKER_OPS || waitpid(W.pid, &st, WNOHANG) == W.pid) {
+        if (W.nops >= WORKER_OPS) worker_reap(NULL, NULL);
+        else { W.pid = -1; if (W.to >= 0) close(W.to); if (W.from >= 0) close(W.from); if (W.err >= 0) close(W.err); W.to = W.from = W.err = -1; W.pid = 0; W.nops = 0; }
+      }
+    }
+    if (W.pid <= 0 && !worker_spawn()) { s_str(out, "infra fork"); return; }
+    int first_op = W.nops == 0;
+    W.nops++;
+    Str msg = {0};
+    s_str(&msg, with_oracle ? "1 " : "0 "); s_str(&msg, spec); s_str(&msg, "\n");
+    size_t off = 0; int werr = 0;
+    while (off < msg.n) { ssize_t k = write(W.to, msg.s + off, msg.n - off); if (k <= 0) { werr = 1; break; } off += (size_t)k; }
+    free(msg.s);
+    Str got = {0};
+    int complete = 0;
+    if (!werr) {
+      char ch[4096]; ssize_t k;
+      while (!complete && (k = read(W.from, ch, sizeof ch)) > 0) {
+        for (ssize_t i = 0; i < k; i++) {
+          if (ch[i] == '\n') { complete = 1; break; }
+          s_put(&got, ch + i, 1);
+        }
+      }
+    }
+    if (complete) {
+      if (got.s) s_str(out, got.s);
+      if (attempt == 1) s_str(out, got.s && strstr(got.s, " ;") ? " note=first-attempt-died-in-a-used-worker" : " ; note=first-attempt-died-in-a-used-worker");
+      free(got.s);
+      return;
+    }
+    // the worker is gone
+    Str err = {0}; int st = 0;
+    worker_reap(&err, &st);
+    int clean_exit = WIFEXITED(st) && WEXITSTATUS(st) == 0;
+    if ((!got.s || got.n == 0) && clean_exit && respawns < 3) {
+      // it had retired after the previous op: not this op's doing
+      respawns++; free(got.s); free(err.s);
+      continue;
+    }
+    if (!first_op && attempt == 0) { attempt++; free(got.s); free(err.s); continue; }
+    if (got.s) s_str(out, got.s);
+    if (clean_exit) {
+      // mju_error / timeout / canary handlers write their text and exit(0) without the newline
+    } else {
+      describe_crash(got.s ? got.s : "", st, &err, out, got.s && got.n > 0);
+    }
+    if (err.s && strstr(err.s, "LeakSanitizer") && !(got.s && strstr(got.s, "leak=1"))) s_str(out, " ; leak=1");
+    if (err.s && ((got.s && strstr(got.s, "leak=1")) || strstr(err.s, "LeakSanitizer"))) {
+      const char* f = strstr(err.s, "Direct leak");
+      int nf = 0;
+      while (f && (f = strstr(f, " in ")) && nf < 5) {
+        f += 4; size_t q = 0; char fn[120];
+        while (f[q] && f[q] != ' ' && f[q] != '\n' && q < sizeof fn - 1) { fn[q] = f[q]; q++; }
+        fn[q] = 0;
+        s_str(out, nf ? "<" : " leakat="); s_str(out, fn); nf++;
+      }
+    }
+    free(got.s); free(err.s);
+    return;
+  }
+}
+
 static void set_model(mjModel* m) {
+  worker_reap(NULL, NULL);   // workers hold the previous model's image
   if (M) mj_deleteModel(M);
   free(IMG); IMG = NULL; IMGN = 0;
   M = m;
@@ -475,6 +563,7 @@ static void set_model(mjModel* m) {
 }
 
 int main(void) {
+  signal(SIGPIPE, SIG_IGN);
   mju_user_warning = on_warning;
   mju_user_error = on_error;
   mju_user_malloc = cap_malloc;
@@ -527,12 +616,16 @@ int main(void) {
       printf("ok\n");
     } else if (!strcmp(op, "load") && M) {
       int n = 0;
+      char* restcopy = strdup(rest);
       unsigned char* b = apply_edits(rest, &n);
-      if (!b) { printf("bad-op\n"); fflush(stdout); continue; }
+      if (!b) { printf("bad-op\n"); fflush(stdout); free(restcopy); continue; }
+      free(b);   // (validated here; the worker applies the same edits to its copy of the image)
       Str out = {0};
-      forked_load(b, n, &out, oracle_on);
+      char* spec = strdup(restcopy);
+      worker_load(spec, oracle_on, &out);
+      for (size_t i = 0; out.s && i < out.n; i++) if (out.s[i] == '\n' || out.s[i] == '\r') out.s[i] = ' ';
       printf("%s\n", out.s ? out.s : "");
-      free(out.s); free(b);
+      free(out.s); free(spec); free(restcopy);
     } else if (!strcmp(op, "sweep") && M) {
       long long from, to, step; char extra;
       if (sscanf(rest, "%lld %lld %lld %c", &from, &to, &step, &extra) != 3 || from < 0 || step <= 0) { printf("bad-op\n"); fflush(stdout); continue; }
@@ -540,7 +633,9 @@ int main(void) {
       long long nn = 0, nrej = 0; Str first = {0};
       for (long long L = from; L < to; L += step) {
         Str out = {0};
-        forked_load(IMG, (int)L, &out, 0);
+        char spec[48];
+        snprintf(spec, sizeof spec, "t%lld", L);
+        worker_load(spec, 0, &out);
         nn++;
         if (out.s && !strncmp(out.s, "reject ", 7) && !strstr(out.s, "crash") && !strstr(out.s, "leak=1")) nrej++;
         else if (!first.s) { char t[32]; snprintf(t, sizeof t, "%lld:", L); s_str(&first, t); s_str(&first, out.s ? out.s : ""); }
